@@ -129,3 +129,12 @@ Print Assumptions C03_tie_stream_reader_read_chunk.
 Theorem C03_tie_stream_reader_expect_to_read : Gen_Codec.stream_reader_expect_to_read = exp_stream_reader_expect_to_read.
 Proof. exact stream_reader_expect_to_read_tie. Qed.
 Print Assumptions C03_tie_stream_reader_expect_to_read.
+Theorem C03_tie_reader_methods : Gen_Codec.reader_methods = exp_reader_methods.
+Proof. exact reader_methods_tie. Qed.
+Print Assumptions C03_tie_reader_methods.
+Theorem C03_tie_stream_reader_methods : Gen_Codec.stream_reader_methods = exp_stream_reader_methods.
+Proof. exact stream_reader_methods_tie. Qed.
+Print Assumptions C03_tie_stream_reader_methods.
+Theorem C03_tie_reader_class_attrs : Gen_Codec.reader_class_attrs = [] /\ Gen_Codec.stream_reader_class_attrs = [].
+Proof. exact reader_class_attrs_tie. Qed.
+Print Assumptions C03_tie_reader_class_attrs.
